@@ -51,7 +51,7 @@ bool Division_Floating_Point_Expression<FP_Interval_Type, FP_Format>
     return false;
   }
   FP_Linear_Form rel_error;
-  relative_error(result, rel_error);
+  this->relative_error(result, rel_error);
   result /= intervalized_second_operand;
   rel_error /= intervalized_second_operand;
   result += rel_error;
